@@ -932,6 +932,21 @@ class MultiUserChannelMatrix:  # pylint: disable=R0902
                     *= small_matrix[rx, tx]
         return big_matrix
 
+    def _update_pathloss_big_matrix(self) -> None:
+        """
+        Compute again the (per antenna) path loss matrix for the current
+        number of antennas.
+
+        This must be called whenever the number of antennas changes, since
+        `_pathloss_big_matrix` has one element for each pair of antennas.
+        """
+        if self._pathloss_matrix is not None:
+            Kr, Kt = self._pathloss_matrix.shape
+            self._pathloss_big_matrix \
+                = MultiUserChannelMatrix._from_small_matrix_to_big_matrix(
+                    self._pathloss_matrix, self._Nr, self._Nt, Kr, Kt)
+            self._pathloss_big_matrix.setflags(write=False)
+
     def init_from_channel_matrix(self, channel_matrix: np.ndarray,
                                  Nr: IntOrIntArrayUnion,
                                  Nt: IntOrIntArrayUnion, K: int) -> None:
@@ -986,6 +1001,7 @@ class MultiUserChannelMatrix:  # pylint: disable=R0902
         self._K = K
         self._Nr = Nr_array
         self._Nt = Nt_array
+        self._update_pathloss_big_matrix()
 
         self._big_H_no_pathloss = channel_matrix
 
@@ -1030,6 +1046,7 @@ class MultiUserChannelMatrix:  # pylint: disable=R0902
         self._Nr = Nr.astype(int)
         self._Nt = Nt.astype(int)
         self._K = int(K)
+        self._update_pathloss_big_matrix()
 
         self._big_H_no_pathloss = randn_c_RS(self._RS_channel,
                                              np.sum(self._Nr),
